@@ -14,13 +14,21 @@ GROWTH = [{"ops": [{"op": "add", "name": f"grow{i:02d}", "size": ["mini", "cutof
                   + [{"op": "delete", "name": "MixedAX", "size": ""}, {"op": "add", "name": "mixedbx", "size": "big"}]}]
 
 
-def one_shard(vh, behs, d, i):
+FIXTURES = ["/repo/functest/packages/dummy.msi", "synth:512:mixed", "synth:512:nomini", "synth:512:fulldir", "synth:512:gaps",
+            "synth:4096:mixed", "synth:4096:nomini"]
+
+
+def one_shard(vh, behs, d, i, fixture=FIXTURES[0]):
     p = os.path.join(d, f"beh{i}.jsonl")
     tr = os.path.join(d, f"trace{i}.ndjson")
     with open(p, "w") as f:
         for b in behs:
             f.write(json.dumps(b) + "\n")
-    o = parse_vh_json(run_vh(vh, ["cfb-history", p, tr], env={"VERIF_TMP": d}, timeout=3000), "cfb")
+    o = parse_vh_json(run_vh(vh, ["cfb-history", p, tr, fixture], env={"VERIF_TMP": d}, timeout=3000), "cfb " + fixture)
+    if o["extra"].get("behaviours_read") != len(behs):
+        raise NoVerdict(f"cfb-history {fixture}: read {o['extra']} of {len(behs)}")
+    for f_ in o["failures"]:
+        f_["key"] = dict(f_["key"], fixture=os.path.basename(fixture))
     lines = [l for l in open(tr).read().splitlines() if l.strip()]
     return o, lines
 
@@ -40,13 +48,39 @@ def run(t):
     behs = g.beh
     rnd = random.Random(seed())
     rnd.shuffle(behs)
+    nsyn = 40 if t == "quick" else 600
+    syn = behs[-nsyn:] + GROWTH          # histories run on every synthesised input as well
     behs = behs[: (240 if t == "quick" else 4000)] + GROWTH
     d = scratch("c18")
     try:
         shards = 8
-        parts = [behs[i::shards] for i in range(shards)]
-        with cf.ThreadPoolExecutor(shards) as ex:
-            results = list(ex.map(lambda iv: one_shard(vh, iv[1], d, iv[0]), enumerate(parts)))
+        parts = [(behs[i::shards], FIXTURES[0]) for i in range(shards)] + [(syn, fx) for fx in FIXTURES[1:]]
+        with cf.ThreadPoolExecutor(14) as ex:
+            results = list(ex.map(lambda iv: one_shard(vh, iv[1][0], d, iv[0], iv[1][1]), enumerate(parts)))
+        # DIFAT region: 512-byte-sector files grown through 109->110 and 236->237 FAT sectors (first and second DIFAT sector),
+        # produced by comdoc itself (c:) and by the harness writer (w:)
+        dtr = os.path.join(d, "difat.ndjson")
+        od = parse_vh_json(run_vh(vh, ["cfb-difat", dtr, "c:110", "w:110", "c:237", "w:237"] + (["c:364", "w:364"] if t != "quick" else []),
+                                  env={"VERIF_TMP": d}, timeout=3000), "cfb-difat")
+        dl = [l for l in open(dtr).read().splitlines() if l.strip()]
+        for f_ in od["failures"]:
+            run.violation(dict(f_["key"], fixture="synth-512-large"), f_["desc"], f_["replay"])
+        run.cov["evaluations"] += od["evaluations"]
+        run.cov["distinct_nontrivial"] += od["distinct_nontrivial"]
+        cross = {k: v for k, v in od["counters"].items() if k.startswith("fat_")}
+        if not od["failures"] and not any("dif_0_to_1" in k for k in cross) or (not od["failures"] and not any("dif_1_to_2" in k for k in cross)):
+            raise NoVerdict(f"DIFAT growth not reached: {od['counters']}")
+        run.cov["difat_crossings"] = cross
+        if dl:
+            ok, consumed, total, resd = validate_trace("CfbTables_Trace", "CfbTables_Trace.cfg", dl, timeout=900, dfs=False)
+            run.add_tlc(resd, "table-summary trace of large files")
+            if ok:
+                run.cov["traces_validated_against_impl"] += total
+            else:
+                st = json.loads(dl[min(consumed or 1, len(dl) - 1)])
+                run.violation({"engine": "cfb-trace", "invariant": resd.violated or "Monotone", "fixture": "synth-512-large"},
+                              f"large file after step '{st.get('step')}' ({st.get('nfat')} FAT / {st.get('ndif')} DIFAT sectors): table accounting "
+                              f"violates {resd.violated or 'Monotone'}", {"step": st.get("step"), "nfat": st.get("nfat"), "ndif": st.get("ndif")})
         nstates = 0
         def validate(lines):
             return validate_trace("Cfb_Trace", "Cfb_Trace.cfg", lines, timeout=1800, dfs=False)
@@ -69,7 +103,7 @@ def run(t):
                 idx = (consumed or 1)
                 st = json.loads(lines[min(idx, len(lines) - 1)]) if lines else {}
                 what = res.violated or "StreamsPreserved/no-matching-step"
-                run.violation({"engine": "cfb-trace", "invariant": what},
+                run.violation({"engine": "cfb-trace", "invariant": what, "fixture": os.path.basename(str(st.get("fixture", "")))},
                               f"projected file state #{idx + 1} (after step '{st.get('step')}') violates {what}: the compound file relic wrote is not a valid "
                               f"container / lost a stream", {"step": st.get("step"), "touched": st.get("touched")})
     finally:
@@ -78,11 +112,14 @@ def run(t):
     run.cov["rule"] = (f"histories = {len(behs)} sequences of add/replace/delete over names {{sigA, SIGb, an existing stream}} x size classes "
                        "{63, cutoff-1, cutoff, cutoff+1, 3*cutoff+17 bytes} generated by TLC from the allocator model (seeded sample in quick) plus two "
                        "growth histories (11 and 9 added streams: directory and FAT growth, mixed-case names) and a final InsertMSISignature; "
-                       "fixture functest/packages/dummy.msi; after EVERY step the file is projected by an independent reader and all CfbInv "
+                       "inputs: functest/packages/dummy.msi (4096-byte sectors) and six files synthesised by the harness writer (512/4096-byte "
+                       "sectors, with/without mini stream, full directory sector, free sectors between streams), plus 512-byte-sector files grown "
+                       "through the first and second DIFAT sector (table-summary invariants in TLC, chains by the reader); after EVERY step the file is projected by an independent reader and all CfbInv "
                        "invariants + StreamsPreserved are evaluated by TLC. non-trivial = history with at least one operation")
     run.cov["exhaustive"] = False
-    run.assumptions += ["one fixture (512-byte sectors, mini stream present); 4096-byte sectors, nested storages being modified and DIFAT growth "
-                        "(> 109 FAT sectors) are not exercised in this revision", "zero-length added streams are outside the quantifier (comdoc panics on them: see DESIGN)"]
+    run.assumptions += ["nested storages are preserved but never modified; files beyond 109 FAT sectors are too large for CfbInv's chain walks in "
+                        "TLC: their chains are validated by the harness reader and only the table accounting goes to TLC",
+                        "trusted: the harness CFB writer and reader (every synthesised input satisfies all CfbInv invariants before relic touches it)", "zero-length added streams are outside the quantifier (comdoc panics on them: see DESIGN)"]
     return run.finish()
 
 
